@@ -21,16 +21,29 @@
         its overlaps do)
      5  letters, sequences; overlaps 1X, 1M1X, 1=1X (mismatch operation: merging
         with full trim or a clean refusal are both accepted) mixed with 1=, 2M
-   Every state is printed as <<"CASE", profile, segments, links>>; the harness
-   writes it as GFA1 and as GFA2 text and runs gfapy on it.                   *)
+     6  as 1, with DEPENDANTS on every segment and dovetail (variable deco): lines
+        that go when a chain member or an internal dovetail goes, several of them
+        in the same reference collection of the line they depend on:
+          deco 1  containments: every segment contains the satellites X, Y, Z and is
+                  contained twice in the satellite K (GFA1 and GFA2)
+          deco 2  GFA1 paths: three one-segment paths per segment, two paths over
+                  every dovetail (one in each direction)
+          deco 3  GFA2: per segment three fragments, two gaps on each end, two
+                  unordered and two ordered groups; two unordered groups per edge
+          deco 4  containments of the segments in each other, both ways (GFA1)
+        The satellites take no part in any dovetail.
+   Every state is printed as <<"CASE", profile, segments, links, containments,
+   other lines, whether the graph has a chain>>; the harness writes it as GFA1 and
+   as GFA2 text and runs gfapy on it.                                         *)
 EXTENDS LinearPaths, TLC
 
 CONSTANTS NSeg, MaxLinks, LawLinks
 
-VARIABLES prof, sel
-vars == <<prof, sel>>
+VARIABLES prof, sel, deco
+vars == <<prof, sel, deco>>
 
-Profiles == {1, 2, 3, 4, 5}
+Profiles == {1, 2, 3, 4, 5, 6}
+Decos == 1..4
 LetterNames == <<"A", "B", "C", "D">>
 DigitNames  == <<"1", "2", "3", "4">>
 \* sequences over the whole IUPAC alphabet in both cases: every code occurs in one of the first
@@ -45,7 +58,7 @@ ASSUME UNION {Rng(SeqCat[i]) : i \in 1..3} = DOMAIN ComplUpper \cup DOMAIN Compl
 NameOf(p, i) == IF p = 3 THEN DigitNames[i] ELSE LetterNames[i]
 \* [name, seq, len (always known: GFA2 needs it), ln = 1 when GFA1 text carries LN]
 SegRec(p, i) ==
-  CASE p \in {1, 4, 5} -> [name |-> NameOf(p, i), seq |-> SeqCat[i], len |-> Len(SeqCat[i]), ln |-> 0]
+  CASE p \in {1, 4, 5, 6} -> [name |-> NameOf(p, i), seq |-> SeqCat[i], len |-> Len(SeqCat[i]), ln |-> 0]
     [] p = 2 -> [name |-> NameOf(p, i), seq |-> IF i = 2 THEN <<>> ELSE SeqCat[i],
                  len |-> Len(SeqCat[i]), ln |-> IF i = 1 THEN 1 ELSE 0]
     [] p = 3 -> [name |-> NameOf(p, i), seq |-> IF i = 3 THEN SeqCat[i] ELSE <<>>,
@@ -80,7 +93,7 @@ RECURSIVE OvOf(_, _)
 OvOf(p, q) ==
   IF Cat[q].twin = 1 THEN KM(3)
   ELSE IF Cat[q].twin >= 2 THEN OvOf(p, OrigOf(q))
-  ELSE CASE p = 1 -> KM(1 + (q % 2))
+  ELSE CASE p \in {1, 6} -> KM(1 + (q % 2))
          [] p = 2 -> IF q % 3 = 0 THEN KM(-1) ELSE KM(1)
          [] p = 3 -> IF q % 2 = 0 THEN KM(2) ELSE KM(-1)
          [] p = 4 -> Rich[1 + (q % 8)]
@@ -99,22 +112,70 @@ GraphOf2(p, s) ==
   [segs |-> {LET r == SegRec(p, i) IN [name |-> r.name, seq |-> r.seq, len |-> r.len] : i \in 1..NSeg},
    links |-> GraphOf(p, s).links]
 
-Init == prof \in Profiles /\ sel = <<>>
+Init == prof \in Profiles /\ sel = <<>> /\ deco \in (IF prof = 6 THEN Decos ELSE {0})
 Next == /\ Len(sel) < MaxLinks
+        /\ prof = 6 => Len(sel) < 3        \* graphs with dependants: at most three dovetails
         /\ \E q \in DOMAIN Cat :
              /\ (IF sel = <<>> THEN TRUE ELSE q > sel[Len(sel)])
              /\ Cat[q].twin >= 1 => \E k \in DOMAIN sel : sel[k] = NeedsOf(q)
              /\ Cat[q].twin >= 2 => prof \in IdentProfiles
              /\ sel' = Append(sel, q)
-        /\ UNCHANGED prof
+        /\ UNCHANGED <<prof, deco>>
 Spec == Init /\ [][Next]_vars
 
+-----------------------------------------------------------------------------
+(* dependants (profile 6) *)
+Sat == << <<"X", <<"A", "c">>>>, <<"Y", <<"G", "t">>>>, <<"Z", <<"T", "A">>>>,
+          <<"K", <<"A", "A", "C", "C", "G", "G", "T", "T", "A", "C", "G", "T", "A", "C">>>> >>
+SatSegs(d) == IF d = 0 THEN <<>> ELSE [k \in DOMAIN Sat |-> <<Sat[k][1], Sat[k][2], Len(Sat[k][2]), 0>>]
+RECURSIVE FlatMap(_, _, _)
+FlatMap(F(_), n, i) == IF i > n THEN <<>> ELSE F(i) \o FlatMap(F, n, i + 1)
+\* containments <<container, orientation, contained, orientation, position, overlap length (-1 = `*`), tags, id>>
+DecoConts(p, d) ==
+  LET N(i) == NameOf(p, i) IN
+  IF d = 1 THEN FlatMap(LAMBDA i : << <<N(i), "+", "X", "+", 1, 2, <<>>, "*">>, <<N(i), "+", "Y", "-", 2, -1, <<>>, "*">>,
+                                     <<N(i), "-", "Z", "+", 3, 2, <<>>, "*">>,
+                                     <<"K", "+", N(i), "+", i, -1, <<>>, "*">>, <<"K", "-", N(i), "+", 0, -1, <<>>, "*">> >>,
+                        NSeg, 1)
+  ELSE IF d = 4 THEN FlatMap(LAMBDA i : FlatMap(LAMBDA j : IF j <= i THEN <<>> ELSE
+                                      << <<N(i), "+", N(j), "+", 0, -1, <<>>, "*">>, <<N(j), "-", N(i), "+", 1, -1, <<>>, "*">> >>,
+                                      NSeg, 1), NSeg, 1)
+  ELSE <<>>
+\* other lines, as sequences of fields
+OrientOut(e) == IF e[2] = "R" THEN "+" ELSE "-"
+OrientIn(e)  == IF e[2] = "L" THEN "+" ELSE "-"
+Flip(o) == IF o = "+" THEN "-" ELSE "+"
+DecoLines(p, d, s) ==
+  LET N(i) == NameOf(p, i)
+      T(i) == ToString(i) IN
+  IF d = 2 THEN
+    FlatMap(LAMBDA i : << <<"P", "p" \o T(i) \o "a", N(i) \o "+", "*">>, <<"P", "p" \o T(i) \o "b", N(i) \o "-", "*">>,
+                          <<"P", "p" \o T(i) \o "c", N(i) \o "+", "*">> >>, NSeg, 1)
+    \o FlatMap(LAMBDA k : LET r == LinkRec(p, s[k]) IN
+                << <<"P", "q" \o T(k), r.e1[1] \o OrientOut(r.e1) \o "," \o r.e2[1] \o OrientIn(r.e2), "*">>,
+                   <<"P", "r" \o T(k), r.e2[1] \o Flip(OrientIn(r.e2)) \o "," \o r.e1[1] \o Flip(OrientOut(r.e1)), "*">> >>,
+                Len(s), 1)
+  ELSE IF d = 3 THEN
+    FlatMap(LAMBDA i : << <<"F", N(i), "ext1+", "0", "2", "0", "2", "*">>, <<"F", N(i), "ext2-", "1", "3", "0", "2", "*">>,
+                          <<"F", N(i), "ext1+", "2", "3", "5", "6", "*">>,
+                          <<"G", "*", N(i) \o "+", "X+", "5", "*">>, <<"G", "*", N(i) \o "+", "Y-", "5", "*">>,
+                          <<"G", "g" \o T(i), N(i) \o "-", "Z+", "7", "*">>, <<"G", "*", N(i) \o "-", "X-", "7", "2">>,
+                          <<"U", "u" \o T(i) \o "a", N(i) \o " X">>, <<"U", "u" \o T(i) \o "b", "Y " \o N(i)>>,
+                          <<"O", "o" \o T(i) \o "a", N(i) \o "+">>, <<"O", "o" \o T(i) \o "b", N(i) \o "-">> >>, NSeg, 1)
+    \o FlatMap(LAMBDA k : << <<"U", "v" \o T(k) \o "a", "e" \o T(k) \o " X">>, <<"U", "v" \o T(k) \o "b", "K e" \o T(k)>> >>,
+                Len(s), 1)
+  ELSE <<>>
+\* the versions a decoration can be written in (0 = both)
+DecoVer(d) == CASE d = 2 -> 1 [] d = 4 -> 1 [] d = 3 -> 2 [] OTHER -> 0
+
 Emit == PrintT(<<"CASE", prof,
-                 [i \in 1..NSeg |-> LET r == SegRec(prof, i) IN <<r.name, r.seq, r.len, r.ln>>],
+                 [i \in 1..NSeg |-> LET r == SegRec(prof, i) IN <<r.name, r.seq, r.len, r.ln>>] \o SatSegs(deco),
                  [k \in DOMAIN sel |-> LET r == LinkRec(prof, sel[k]) IN
                                        <<r.e1[1], r.e1[2], r.e2[1], r.e2[2],
                                          [j \in DOMAIN r.ov |-> <<r.ov[j].n, r.ov[j].c>>],
-                                         <<>>, Cat[sel[k]].twin>>]>>)
+                                         <<>>, Cat[sel[k]].twin>>],
+                 DecoConts(prof, deco), DecoLines(prof, deco, sel), DecoVer(deco),
+                 IF prof = 6 /\ Chains(GraphOf(prof, sel)) # {} THEN 1 ELSE 0>>)
 
 -----------------------------------------------------------------------------
 Laws(G) == /\ ChainsWellFormed(G)
@@ -126,8 +187,9 @@ Laws(G) == /\ ChainsWellFormed(G)
            /\ LinkCount(G)
            /\ OvLenWellDefined(G)
 \* (the laws are evaluated on the states with at most LawLinks dovetails)
-InvLaws  == Len(sel) <= LawLinks => Laws(GraphOf(prof, sel))
-InvLaws2 == Len(sel) <= LawLinks => Laws(GraphOf2(prof, sel))
+\* (the dependants of profile 6 do not enter the graph of the laws: once per selection)
+InvLaws  == (Len(sel) <= LawLinks /\ deco <= 1) => Laws(GraphOf(prof, sel))
+InvLaws2 == (Len(sel) <= LawLinks /\ deco <= 1) => Laws(GraphOf2(prof, sel))
 \* the same laws one by one (to name the law that fails)
 InvWellFormed == ChainsWellFormed(GraphOf(prof, sel))
 InvCovered    == JoinsCovered(GraphOf(prof, sel))
